@@ -19,7 +19,7 @@ func TestMain(m *testing.M) {
 			"non-trivial = distinct pair with both renderings multi-digit / non-empty map / sequence passing both true and false to Assume or Assert / "+
 			"signal and timeout racing (|t-d| <= 2 ms) or d <= t/4 with t >= 20 ms; distinct by the whole case",
 		"reference decimal rendering and parser are hand-written digit loops (not fmt/strconv)",
-		"WaitTimeout timing uses the wall clock: slack = max(250 ms, 20 x a scheduler-latency probe taken before each case); "+
+		"WaitTimeout timing uses the wall clock: slack = max(250 ms, 20 x the worst of the last 8 scheduler-latency probes, one taken before each case); "+
 			"only a hang (watchdog at 10 x (bound+slack)) or a return later than bound + 10 x slack, reproduced in 3 consecutive fresh runs, is a violation; "+
 			"lateness between 1 x and 10 x slack is counted inconclusive; early returns are legal",
 		"every WaitTimeout case uses a fresh lock and condition variable (goose-lang/primitive leaks a helper goroutine per timed-out call; out of scope)",
@@ -86,14 +86,14 @@ func TestReplay(t *testing.T) {
 			t.Fatal(err)
 		}
 		checkCalls(t, c)
-	case "TestWaitTimeout":
+	case "TestWaitTimeout", "TestWaitTimeoutPlain":
 		var c WaitCase
 		if err := json.Unmarshal(r.Case, &c); err != nil {
 			t.Fatal(err)
 		}
 		// schedule-dependent: re-run the same case several times
 		for i := 0; i < 5; i++ {
-			checkWait(t, c)
+			checkWait(t, r.Test, c)
 		}
 	default:
 		t.Fatalf("replay names unknown test %q", r.Test)
